@@ -2,7 +2,7 @@
 from .. import core, extract
 from ..core import Suite, hx
 
-LEAN_TARGETS = ['Uds.Props.C14', 'Uds.Tie.Codecs']
+LEAN_TARGETS = ['Uds.Props.C14', 'Uds.Props.C14Reuse', 'Uds.Tie.Codecs']
 ASSUMPTIONS = [
     'ISO 14229-1 Annex H: bits 7-4 of addressAndLengthFormatIdentifier = number of memorySize bytes, bits 3-0 = number of memoryAddress bytes; both unsigned big-endian',
     'documented widths are 8..64 bits in steps of 8; a value is in domain iff 0 <= v < 2**width for the width that will be transmitted',
